@@ -13,7 +13,7 @@ Theorem C10_struct :
     match transparent_fields fs with
     | _ :: _ :: _ => build_debug_for_struct s e h fs = Err transparent_msg
     | _ => exists ir, build_debug_for_struct s e h fs = Ok [ir] /\
-                      ir_body ir = BDebugStruct (debug_body_spec (s_name s) (s_fields s) fs)
+                      ir_body ir = BDebugStruct (debug_body_spec (s_name s) (s_fields s) fs) (last_double_ref s fs)
     end.
 Proof. exact debug_struct_body. Qed.
 
